@@ -56,8 +56,16 @@ class Contract:
         self.hints = kw.pop("hints", {})          # label -> clause: proved at the return point, then available to the ensures (lemmas)
         self.assumes = kw.pop("assumes", {})      # label -> clause assumed on entry (trusted; listed in the evidence)
         self.hide = kw.pop("hide", [])            # ensures labels not revealed to callers (opaque)
+        self.uses = kw.pop("uses", [])            # pure callee contracts available as quantified lemmas (forall args. requires => ensures on F(args)); also ties function values
+                                                  # passed by reference (apply1(<global f>, x)) to F_f(x)
+        self.definitional = kw.pop("definitional", [])   # clause-key prefixes that *define* otherwise unconstrained spec symbols: assumed by callers, no obligation generated
+        self.outside_pre = kw.pop("outside_pre", None)   # text: what is assumed of a call that does not meet `requires` (only the definitional clauses then apply); None = such a call is an error
+        self.lemma = kw.pop("lemma", None)        # (module, source text): a composition of repo functions stated in the sidecar and verified like a function body
         assert not kw, kw
         CONTRACTS[target] = self
+        if self.lemma:
+            from . import source
+            source.register_lemma(target, self.lemma[0], self.lemma[1])
 
 
 def contract(target, **kw):
